@@ -229,13 +229,28 @@ def cfg_package(facts, t0):
     except Exception as ex:
         return [{"name": "C15:functions_ext:cfg.package", "clause": "unsupported", "status": "undecided", "seconds": 0.0, "reason": str(ex)[:200]}]
     n = 0
+    classes = {nd.name: nd for nd in tree.body if isinstance(nd, pyast.ClassDef)}
+
+    def base_names(nd):
+        return [b.id if isinstance(b, pyast.Name) else getattr(b, "attr", "") for b in nd.bases]
+
+    def is_generic(nd, seen=()):
+        bs = base_names(nd)
+        return "GenericFunction" in bs or any(b in classes and b not in seen and is_generic(classes[b], seen + (nd.name,)) for b in bs)
+
+    def own(nd, attr):
+        for st in nd.body:
+            if isinstance(st, pyast.Assign) and any(isinstance(t, pyast.Name) and t.id == attr for t in st.targets) \
+                    and isinstance(st.value, pyast.Constant):
+                return st.value.value
+        return None
     for node in tree.body:
-        if not isinstance(node, pyast.ClassDef):
+        if not isinstance(node, pyast.ClassDef) or not is_generic(node):
             continue
-        bases = [b.id if isinstance(b, pyast.Name) else getattr(b, "attr", "") for b in node.bases]
-        if "GenericFunction" not in bases:
-            continue
+        if own(node, "_register") is False:
+            continue            # an abstract base: SQLAlchemy does not register it
         n += 1
+        # SQLAlchemy reads `package` from the class's own namespace (clsdict.get("package", "_default")), not through inheritance
         val = None
         for st in node.body:
             if isinstance(st, pyast.Assign) and any(isinstance(t, pyast.Name) and t.id == "package" for t in st.targets) \
